@@ -116,3 +116,6 @@ func VerifUserIn(c net.Conn) (future int, buffered int) {
 	_, b, f, _ := u.in.VerifState()
 	return f, len(b)
 }
+
+// VerifSetInSeq: the server-side session has received everything up to (not including) this sequence number.
+func VerifSetInSeq(c net.Conn, next uint16) { c.(*userConnection).in.NextSeqNo = next }
